@@ -4,44 +4,46 @@
    [flush_fault ft] is Session.flush() with the crash oracle of orm/FlushFail.v: ft = FStmt k (the driver
    reports a failure for the (k+1)-th INSERT/UPDATE/DELETE, after it ran), FPre / FAfter / FPost (the
    before_flush / after_flush / after_flush_postexec listener raises); real statement errors
-   (IntegrityError, StaleDataError) are part of every flush of the model.  [Inv] is the session invariant
-   of C33 (orm/SessTxnCore.v). *)
+   (IntegrityError, StaleDataError) are part of every flush of the model.
+   [FReach e st]: st is reached by ANY history of guarded C33 operations (SessTxnSpec.guard) and faulty
+   flushes (no condition on the fault: any crash point, any number of failures, also inside savepoints). *)
 From Coq Require Import List ZArith Bool Arith.
 Import ListNotations.
-From SAV.orm Require Import SessTxn SessTxnSpec SessTxnCore SessTxnFlushCore FlushFail FlushFailThm.
+From SAV.orm Require Import SessTxn SessTxnSpec SessTxnFlushCore FlushFail FlushFailThm.
 
 (* ---- nothing_committed: whatever the crash point, the rows other connections see do not change -
    neither by the failing flush nor by Session.rollback() after it - and after the rollback the
    session's connection shows exactly the committed rows: no partial effect of the flush survives *)
-Theorem c32_nothing_committed_partial : forall ft st r s1,
-  Inv st -> flush_fault ft st = (r, s1) -> r <> Unmodelled ->
+Theorem c32_nothing_committed : forall e ft st r s1,
+  FReach e st -> flush_fault ft st = (r, s1) -> r <> Unmodelled ->
   committed s1 = committed st /\
   exists s2, do_op ORollback s1 = (Ok, s2) /\ committed s2 = committed st /\ work s2 = committed st /\ stack s2 = [].
-Proof. exact nothing_committed. Qed.
-Print Assumptions c32_nothing_committed_partial.
+Proof. exact nothing_committed_reach. Qed.
+Print Assumptions c32_nothing_committed.
 
 (* ---- after_rollback_objects_agree_with_db: Session.rollback() after the failure succeeds; then every
    persistent object has its row and its loaded values equal it, no object is left in the deleted state
    while its row exists ([agrees], the predicate of C33), nothing is pending, modified or marked deleted *)
-Theorem c32_after_rollback_objects_agree_with_db_partial : forall ft st r s1,
-  Inv st -> flush_fault ft st = (r, s1) -> r <> Unmodelled ->
+Theorem c32_after_rollback_objects_agree_with_db : forall e ft st r s1,
+  FReach e st -> flush_fault ft st = (r, s1) -> r <> Unmodelled ->
   exists s2, do_op ORollback s1 = (Ok, s2) /\ agrees s2 = true /\ no_pending s2 = true /\ is_clean s2 = true.
-Proof. exact after_rollback_objects_agree_with_db. Qed.
-Print Assumptions c32_after_rollback_objects_agree_with_db_partial.
+Proof. exact after_rollback_agree_reach. Qed.
+Print Assumptions c32_after_rollback_objects_agree_with_db.
 
-(* ---- rerun_equals_failure_free_run, the part that is proven: the failing flush keeps the invariant that
-   all C33 theorems are about (what the application does next - e.g. the re-run - is covered by them as
-   if no failure had happened), objects and handles are the same, the innermost transaction is either
-   untouched or DEACTIVE with its snapshot already restored (session clean), and the rollback ends in a
-   clean session outside any transaction.  (That the re-run then writes the same rows as a failure-free
-   run is checked on the implementation against reference runs, see specs/c32.py.) *)
-Theorem c32_rerun_equals_failure_free_run_partial : forall ft st r s1,
-  Inv st -> flush_fault ft st = (r, s1) -> r <> Unmodelled ->
-  Inv s1 /\ nobj s1 = nobj st /\ handles s1 = handles st /\
+(* ---- rerun_equals_failure_free_run, the part that is proven: the state after the failing flush, and the
+   state after the rollback, are again states of guarded histories - so whatever the application does
+   next (e.g. the re-run) is covered by the C33 theorems exactly as if no failure had happened; objects
+   and handles are the same; the innermost transaction is either untouched or DEACTIVE with its snapshot
+   already restored (session clean); the rollback ends in a clean session outside any transaction.
+   (That the re-run then writes the same rows as a failure-free run is checked on the implementation
+   against reference runs, see specs/c32.py.) *)
+Theorem c32_rerun_equals_failure_free_run_partial : forall e ft st r s1,
+  FReach e st -> flush_fault ft st = (r, s1) -> r <> Unmodelled ->
+  FReach e s1 /\ nobj s1 = nobj st /\ handles s1 = handles st /\
   (r <> Ok -> hd_state s1 = hd_state st \/
               (hd_state st = Some ACTIVE /\ hd_state s1 = Some DEACTIVE /\ is_clean s1 = true)) /\
-  exists s2, do_op ORollback s1 = (Ok, s2) /\ Inv s2 /\ stack s2 = [] /\ is_clean s2 = true.
-Proof. exact session_recoverable. Qed.
+  exists s2, do_op ORollback s1 = (Ok, s2) /\ FReach e s2 /\ stack s2 = [] /\ is_clean s2 = true.
+Proof. exact recoverable_reach. Qed.
 Print Assumptions c32_rerun_equals_failure_free_run_partial.
 
 (* the crash oracle is not vacuous *)
@@ -51,7 +53,8 @@ Proof. exact fault_fires. Qed.
 (* ---- REFUTED: "an object added in the transaction is transient again after the failed flush was
    rolled back" (finding C32-expunged-object-with-key-switch-left-detached): new(1,0); flush; o.id = 2;
    flush failing in after_flush_postexec; rollback - the object keeps identity key 1 (detached) although
-   row 1 never was committed *)
+   row 1 never was committed.  (The history is a guarded one: the theorems above hold for it - a detached
+   object is not the session's any more - but the application cannot simply add() it again.) *)
 Theorem c32_added_objects_transient_after_rollback_refuted :
   fst (finalf false w_d7) = Ok /\ all_keyless (snd (finalf false w_d7)) = false /\
   okey (objs (snd (finalf false w_d7)) 0%nat) = Some 1%Z /\ committed (snd (finalf false w_d7)) 1%Z = None.
